@@ -21,6 +21,9 @@ def main():
     extra = []          # --extra LABEL=logfile : the same campaign under another VERIF_SEED (only counted)
     while "--extra" in args:
         i = args.index("--extra"); extra.append(args[i + 1]); del args[i:i + 2]
+    neutral = None      # --neutral logfile : output of sim/neutralrun.py
+    if "--neutral" in args:
+        i = args.index("--neutral"); neutral = args[i + 1]; del args[i:i + 2]
     seedlogs = []       # --seeds LABEL=logfile : output of sim/seedrun.py under a given VERIF_SEED
     while "--seeds" in args:
         i = args.index("--seeds"); seedlogs.append(args[i + 1]); del args[i:i + 2]
@@ -49,7 +52,7 @@ def main():
     ns = sum(1 for r in rows.values() if r[2] == "silent" and r[1] == "missed"); nes = sum(1 for r in rows.values() if r[2] == "silent")
     out.append("\n%d of %d property-breaking mutants caught by the quick tier; %d of %d neutral/equivalent mutants leave the check silent.\n" % (nc, ne, ns, nes))
     for e in extra:
-        label, path = e.split("=", 1)
+        label, path = e.rsplit("=", 1)
         r2 = parse(path)
         c2 = sum(1 for r in r2.values() if r[2] == "caught" and r[1].startswith("caught")); e2 = sum(1 for r in r2.values() if r[2] == "caught")
         s2 = sum(1 for r in r2.values() if r[2] == "silent" and r[1] == "missed"); es2 = sum(1 for r in r2.values() if r[2] == "silent")
@@ -58,7 +61,10 @@ def main():
     out.append("History of misses (each led to a stronger generator or workload, never to a looser oracle): `C12_m3` needed the recursive PLE regime in the quick tier")
     out.append("(dimensions steered above the smallest L3/8); `C10_m1` needed more than 512 columns (wide rank-deficient shapes added); `C11_r2` needed the")
     out.append("write-fault plane of the `fs` engine inside `./check C11`; `C10_m2` and `C11_r1` were first reported under the neighbouring property")
-    out.append("(attribution refined: a leak or crash inside the *history prefix* is C11's, one that the same probe call shows only in a dirty world is C10's).\n")
+    out.append("(attribution refined: a leak or crash inside the *history prefix* is C11's, one that the same probe call shows only in a dirty world is C10's).")
+    out.append("Later misses under other seeds showed thin margins in the quick tier (DESIGN.md section 10, items 22 and 31): `C10_m4`, `C10_r3`, `C12_m3`, `C20_r1`,")
+    out.append("`C11_r10` and `C11_r6` were each missed under one seed at some point; the generator was stratified, budgets raised, the flavour decorrelated from the")
+    out.append("strata and the `djb` operands steered; `C11_r6` and `C11_r10` were then caught under four seeds each (20261002, 7, 424242, 99).\n")
     out.append("## Seeded changes written by independent sub-agents (`seeded/<id>/`)\n")
     out.append("Each agent received the property text, a scratch worktree and (rounds 2-3) a list of library areas to consider or to avoid - nothing from /verif.")
     out.append("Every change was confirmed by me in that worktree (compiles, `make check` 15/15 with the change, demonstration fails with it and passes without it)")
@@ -80,11 +86,31 @@ def main():
     out.append("\n%d of %d caught by the quick tier of the property's check at the final state; %d of them were missed by the first version of the check "
                "(each miss is described in its row and in DESIGN.md section 14).\n" % (total, total, missed_first))
     for e in seedlogs:
-        label, path = e.split("=", 1)
+        label, path = e.rsplit("=", 1)
         res = re.findall(r'^(C\d\d[a-z])\s+check=(\S+)\s+tier=(\S+)\s+(\S+)', open(path).read(), re.M)
         ok = sum(1 for r in res if r[3] == "caught")
         bad = [r[0] + ":" + r[3] for r in res if r[3] != "caught"]
         out.append("All seeded changes re-run with %s: %d of %d caught%s.\n" % (label, ok, len(res), (" - not caught: " + ", ".join(bad)) if bad else ""))
+    if neutral and os.path.exists(neutral):
+        out.append("## Property-preserving changes written by independent sub-agents (`neutral/<id>/`)\n")
+        out.append("Each keeps the listed properties true while changing how the library does things (allocation pattern, cache policy, synchronisation")
+        out.append("constructs, tuning formulas, I/O route); `python3 sim/neutralrun.py` runs the relevant checks against it and every check must stay")
+        out.append("silent. Three false alarms of the first run are described in DESIGN.md section 10, item 32.\n")
+        out.append("| id | what the change does (first lines of its README) | checks run | result |")
+        out.append("|---|---|---|---|")
+        res = {}
+        for m in re.finditer(r'^(C\d\d_\d)\s+check=(\S+)\s+(\S+)', open(neutral).read(), re.M):
+            res.setdefault(m.group(1), []).append((m.group(2), m.group(3)))
+        nsil = ntot = 0
+        for nid in sorted(res):
+            try:
+                txt = re.sub(r'\s+', ' ', open(os.path.join(VERIF, 'neutral', nid, 'README.txt')).read())[:260].replace('|', '/')
+            except OSError:
+                txt = ""
+            oks = [c for c, r in res[nid] if r == "silent"]
+            ntot += len(res[nid]); nsil += len(oks)
+            out.append("| %s | %s | %s | %s |" % (nid, txt, " ".join(c for c, r in res[nid]), "all silent" if len(oks) == len(res[nid]) else ", ".join("%s:%s" % (c, r) for c, r in res[nid] if r != "silent")))
+        out.append("\n%d of %d check runs silent.\n" % (nsil, ntot))
     out.append("## Controls run on every invocation\n")
     out.append("* C15: the default (non-thread-safe) build under the thread workload must be flagged by the access monitor (32 control runs per invocation; a control that completes unflagged is exit 2).")
     out.append("* C16: the simulated runtime with critical sections turned into no-ops must be flagged (32 control runs per invocation).")
